@@ -38,13 +38,17 @@ package packed
 //@   old avail int = ghost("bufio.buffered", b)
 //@   ensures implies(err == nil, len(out) == n)
 //@   ensures implies(avail >= n && n >= 0, err == nil)
+//@   -- the returned bytes live in the reader's own buffer
+//@   ensures len(out) == 0 || arrID(out) == ghost("bufio.bufarr", b)
 //@   ensures ghost("bufio.buffered", b) >= avail
 
 //@ extern bufio.Reader.ReadByte -> c, err
 //@   modifies g:bufio.buffered
 
 //@ extern io.ReadFull -> n, err
-//@   modifies e:uint8 *
+//@   -- in this package the reader is always the *bufio.Reader: only the destination buffer and the
+//@   -- bufio.Reader's own state change
+//@   modifies e:uint8 g:bufio.buffered
 //@   ensures 0 <= n && n <= len(buf)
 //@   ensures implies(err == nil, n == len(buf))
 //@   ensures implies(err == io.EOF, n == 0)
